@@ -299,6 +299,8 @@ func typeArgFor(c TyJ) string {
 		return "string"
 	case c.K == "named":
 		return "alpha.I"
+	case c.K == "iface" && len(c.Methods) > 0:
+		return "alpha.Ord" // satisfies `interface{ Less(other T) bool }` with T = alpha.Ord
 	default:
 		return "int"
 	}
@@ -337,16 +339,25 @@ func (p c01) Run(c *Ctx, raw json.RawMessage) Case {
 			fmt.Fprintf(&lb, "\t{\n\t\ttype %s interface{ LitOnly%s() }\n\t\tvar _ %s\n\t}\n", n, n, n)
 		}
 		lb.WriteString("\treturn 0\n}()\n")
+		needOrd := false
 		for _, it := range d.Ifaces {
 			for _, n := range in.AliasOf {
 				if n == it.Name {
 					as := []string{}
 					for _, tp := range it.TypeParams {
-						as = append(as, strings.ReplaceAll(typeArgFor(tp.Constraint), "alpha.I", "interface{ M() }"))
+						a := strings.ReplaceAll(typeArgFor(tp.Constraint), "alpha.I", "interface{ M() }")
+						if a == "alpha.Ord" {
+							a = "localOrd"
+							needOrd = true
+						}
+						as = append(as, a)
 					}
 					fmt.Fprintf(&lb, "\n// an alias of an instantiation is not a named interface type of its own\ntype %sAlias = %s[%s]\n", n, n, strings.Join(as, ", "))
 				}
 			}
+		}
+		if needOrd {
+			lb.WriteString("\ntype localOrd int\n\nfunc (o localOrd) Less(other localOrd) bool { return o < other }\n")
 		}
 		files["src/locals.go"] = lb.String()
 	}
